@@ -42,6 +42,14 @@ theorem pumpEvents_stop (len : Nat) (out : List (Nat × Event)) (e : Event) (acc
     rw [ih _ _ (fun ke hke => h ke (by simp [hke]))]
     simp [shown, ccAfter]
 
+/-- how a run that is not a stream ends: as the walker's result dictates -/
+theorem outcome_nonstream (tb : MsgTables) (top : Top) (hs : top.isStream = false) (x : List Byte) :
+    (marshalRun true tb top x).outcome =
+      pumpOutcome x (stOf (runWalker true tb top x)).pos (resOf (runWalker true tb top x)) := by
+  simp only [marshalRun, pump, hs]
+  rw [pumpEvents_all false _ _ _ _ (by intro ke _; simp)]
+  simp
+
 /-! ## single messages -/
 
 theorem command_run (tb : MsgTables) (p : CmdParts) (bs : List Byte) (evs : List SEv) (htb : 0 < tb.tagCmd.size)
